@@ -585,7 +585,9 @@ pub fn generate(prop: &str, thorough: bool, seed: u64, idx: u64) -> Sc {
     // swarm: per-run configuration
     let mut cfg = rng.fork("cfg");
     let has_stack = cfg.chance(9, 10);
-    let stack_len: u64 = *cfg.pick(&[64u64, 128, 256, 512, 1024, 4096]);
+    // lengths that are not a multiple of 16 too: where RSP starts (and so where a top-level RET finds the stack empty)
+    // is the aligned top, not the end of the area
+    let stack_len: u64 = *cfg.pick(&[64u64, 128, 256, 512, 1024, 4096, 100, 1000, 0x1008, 72, 250, 513]);
     let data_len: u64 = if cfg.chance(4, 5) { *cfg.pick(&[16u64, 64, 256, 512]) } else { 0 };
     let n_funcs = if has_stack { cfg.usize(4) } else { 0 };
     let pool_n = 3 + cfg.usize(6);
